@@ -29,7 +29,7 @@ B = {}
 BOUNDS_TEXT = ("_sanitizeLinearWhitespace on every text of <= s bytes; header names of <= nm bytes (bytes or "
                "text, set or add); header values of <= hv characters (bytes 0..255, or text of any code "
                "point, UTF-8 encoded by the real code); reason phrase of <= rs bytes; cookie key <= ck / value <= "
-               "cv bytes with one attribute (Expires/Domain/Path/Max-Age/Comment) of <= ca bytes; the same as "
+               "cv bytes alone, or value <= 1 byte with one attribute (Expires/Domain/Path/Max-Age/Comment) of <= ca bytes; the same as "
                "text (any code point) with key and value symbolic when there is no attribute and fixed when "
                "the attribute is symbolic; "
                "<= 2 body writes of <= bw bytes each; HTTP/1.0 and 1.1, GET and HEAD, status 200/204/304/100, "
@@ -565,6 +565,7 @@ def resp_cookie(k: str, v: str, a: str, which: int, as_text: bool) -> bool:
     pre: len(k) <= B['ck'] and len(v) <= B['cv'] and len(a) <= B['ca']
     pre: no_surrogates(k + v + a) and (as_text or all_latin1(k + v + a))
     pre: 0 <= which < 6
+    pre: which == 0 or len(v) <= 1
     pre: not as_text or (which == 0 and len(v) <= 1) or (k == "k" and v == "v")
     post: _
     """
@@ -641,7 +642,7 @@ HARNESSES = [
       timeout={"quick": 60, "thorough": 1200}),
     H(resp_cookie, shards=lambda tier: [("which == %d" % w, "as_text == %s" % x)
                                         for w in range(6) for x in (False, True)],
-      timeout={"quick": 60, "thorough": 1200}),
+      timeout={"quick": 90, "thorough": 1200}),
     H(resp_body, shards=lambda tier: [("len(w1) == %d" % n,) for n in range(BOUNDS[tier]["bw"] + 1)],
       timeout={"quick": 60, "thorough": 900}),
 ]
